@@ -1,3 +1,4 @@
+import functools
 """auto_config functions (defined in a real file: auto_config needs their source)."""
 from fiddle.experimental import auto_config
 
@@ -28,3 +29,16 @@ def outer(v, w='w'):
 @auto_config.auto_config
 def outer_pos(v):
   return K.three(a=pipeline_pos(v, 3, 'r1', 'r2', b=1), b=pipeline_pos('q'))
+
+
+@auto_config.auto_config(experimental_always_inline=False)
+def pipeline_partials(name, act='relu'):
+  """One base partial specialised twice (and used as it is as well)."""
+  base = functools.partial(K.two, x=name)
+  return K.node(a=functools.partial(base, y=act), b=functools.partial(base, y='gelu'), c=base)
+
+
+@auto_config.auto_config(experimental_always_inline=False)
+def pipeline_chain(base, scale=2):
+  """Specialises a partial it was handed."""
+  return K.node(a=functools.partial(base, y=scale), b=[scale])
